@@ -657,7 +657,7 @@ func c15(c *Ctx) {
 				c.OK("R4", key, tix.at(s), "constructor")
 				continue
 			}
-			okL, why := le.Require(s.F, call, pathKey(tinfo, base)+".mu", true, 0)
+			okL, why := le.Require(s.F, call, pathKey(tinfo, base)+resolvePath(tix.Pkg, "TracerProvider", ".mu"), true, 0)
 			g := tix.FG(s.F)
 			x := g.NodeOf(call)
 			// dominated by a flag test that is itself made under the lock
